@@ -412,7 +412,10 @@ func c19Controller(c *Ctx) {
 		for _, e := range es {
 			starts = append(starts, start{Pt{e.To, 0}, lastInstr(e.From), false})
 		}
-		for _, s := range Info(op).Find(func(it Item) bool { cl, ok := it.In.(*ssa.Call); return ok && !cl.Call.IsInvoke() && cl.Call.StaticCallee() != nil }) {
+		for _, s := range Info(op).Find(func(it Item) bool {
+			cl, ok := it.In.(*ssa.Call)
+			return ok && !cl.Call.IsInvoke() && cl.Call.StaticCallee() != nil
+		}) {
 			cl := s.In.(*ssa.Call)
 			h := cl.Call.StaticCallee()
 			if h.Pkg != p.Sarama || len(h.Blocks) == 0 {
@@ -745,10 +748,10 @@ func versionRule(c *Ctx, floor int, include func(fn string) bool) {
 	}
 	tables := map[string]bool{}
 	type site struct {
-		fn   *ssa.Function
-		st   *ssa.Store
-		typ  string
-		k    int64
+		fn  *ssa.Function
+		st  *ssa.Store
+		typ string
+		k   int64
 	}
 	var sites []site
 	for _, fn := range p.Fns {
